@@ -221,6 +221,35 @@ func c25Sequence(rt *rapid.T, rec *ev.Rec, w *world, n int, mode string, ka *c25
 		}
 		time.Sleep(20 * time.Millisecond)
 		w.forget(tg)
+	case "h2-upload-then-reset":
+		// an HTTP/2 upload without content-length whose last DATA frame (END_STREAM) is followed
+		// at once by RST_STREAM or by the loss of the connection: whatever reaches the backend
+		// is either nothing, a truncated request, or the complete request with the complete body
+		size := rapid.SampledFrom([]int{1, 100, 9009, 40000}).Draw(rt, "h2-body")
+		how := rapid.SampledFrom([]string{"rst", "drop", "rst-then-drop"}).Draw(rt, "h2-abort")
+		k := rapid.IntRange(1, 3).Draw(rt, "h2-streams")
+		rec.Case(fmt.Sprintf("h2abort|%d|%s|%d|%d", size, how, k, n), true, "mode:h2-upload-then-reset", "h2-abort:"+how)
+		rec.Sample(map[string]any{"mode": mode, "body": size, "abort": how, "streams": k})
+		wit["body"], wit["abort"], wit["streams"] = size, how, k
+		cl, err := sys.NewH2Client(w.rig.HTTPSAddr)
+		if err != nil {
+			rt.Fatalf("rig: h2 dial: %v", err)
+		}
+		for i := 0; i < k; i++ {
+			tg := fmt.Sprintf("%s/h2up%d", base, i)
+			body := bytes.Repeat([]byte{byte('a' + i)}, size)
+			issued[tg] = &c25Issued{Method: "POST", Fields: map[string]string{"x-up": fmt.Sprint(i)}, Body: body, Sent: size, CL: false}
+			cl.SendAborted([]sys.H2Field{{":method", "POST"}, {":scheme", "https"}, {":path", tg}, {":authority", "example.org"}, {"x-up", fmt.Sprint(i)}}, body, how != "drop")
+		}
+		if how != "rst" {
+			cl.Close()
+		}
+		time.Sleep(time.Duration(rapid.SampledFrom([]int{5, 40}).Draw(rt, "h2-settle-ms")) * time.Millisecond)
+		get(0)
+		if how == "rst" {
+			cl.Close()
+		}
+		time.Sleep(20 * time.Millisecond)
 	case "concurrent":
 		k := rapid.IntRange(8, 24).Draw(rt, "clients")
 		nf := rapid.IntRange(4, 24).Draw(rt, "fields-per-request")
